@@ -83,6 +83,18 @@ CHECKS = {
                 "across threads are outside the claim.",
         "design": "3 C09",
     },
+    "C17": {
+        "text": "Bounded symbolic verification of identifier allocation: the real FeatureIdStorage (constructor + get_id) is run with <=3 "
+                "reference exons and <=4 queries whose coordinates and strands are symbolic; z3 proves that exon_id is a function of "
+                "(chr,start,end,strand) from the first call on, injective, preserves reference ids and never re-issues one. The real "
+                "ExcludingIdDistributor parses reference ids whose NUMBERS are symbolic (gene or transcript form) and z3 proves that allocated "
+                "numbers increase strictly and avoid every reference number. GFFPrinter.dump with <=3 models of symbolic coordinates / strand / "
+                "gene through two printers sharing one storage: ids parsed back from the GTF text are functional and unique per file.",
+        "note": "Trusted: z3, symx proxies, association-list dict/set shims (FeatureIdStorage.__init__ is recompiled from the current source "
+                "with its dict literal turned into dict()), sentinel parsing of GTF text. The id format strings are taken from "
+                "TranscriptNaming; uniqueness over the concatenation of all chromosomes relies on the chromosome prefix (two-storage step).",
+        "design": "3 C17",
+    },
 }
 
 NOT_BUILT = "check not built yet (build in progress, see DESIGN.md section 5); no claim is made"
